@@ -1097,7 +1097,7 @@ func c19IsLaws(env *core.Env, rng *core.Rng) {
 	ident := &dtpb.Identifier{System: &dtpb.Uri{Value: "http://s"}, Value: &dtpb.String{Value: "v"}}
 	var pool []*dtpb.Reference
 	for _, id := range []string{"a", "b"} {
-		for _, ver := range []string{"", "1"} {
+		for _, ver := range []string{"", "1", "2"} {
 			rel := "Patient/" + id
 			if ver != "" {
 				rel += "/_history/" + ver
